@@ -3,7 +3,8 @@
 Decided statically: the lock discipline that makes the races safe — the snapshot lock is held (shared) from sequence
 allocation until the in-memory apply holds the store exclusively; the snapshotter reads (sequence, store) under the
 exclusive snapshot lock; MANIFEST read-modify-write happens under manifest_lock; a stale snapshot never replaces a
-newer one; tombstone compaction holds the snapshot lock exclusively across the whole swap.  The interleavings
+newer one (nor its file: snapshot files are named by per-call ids); tombstone compaction holds the snapshot lock exclusively across the whole swap;
+slot lookup, log append and apply of a mutator lie in one write-gate critical section.  The interleavings
 themselves are not decided.
 """
 import re
@@ -16,7 +17,8 @@ MANIFEST = {
             'matters (must-hold dataflow over guard live ranges): shared snapshot lock from sequence allocation to the '
             'exclusive store acquisition in all mutators, exclusive snapshot lock over (sequence read, store copy) in the '
             'snapshotter and over the whole swap in tombstone compaction, manifest_lock around every MANIFEST '
-            'load→save after construction, stale-snapshot refusal. Each is a necessary condition; interleavings are not decided.',
+            'load→save after construction, stale-snapshot refusal, one write-gate critical section from the slot lookup over the log append to the apply '
+            'in every mutator, snapshot files named by an id minted per call. Each is a necessary condition; interleavings are not decided.',
     'design_ref': 'DESIGN.md §4.9',
     'note': 'Trusted base: rustc MIR, guard-liveness dataflow (Option<Guard> from persistence.as_ref().map(..) counts as '
             'held because persistence is an immutable field behind &self).',
